@@ -3,7 +3,7 @@ import random
 from vlib import tlc, core
 from drivers.detector_drv import DetectorDriver
 
-OPS = ['NewAnt', 'NewList', 'NewStr', 'NewSta', 'Plus', 'IPlus', 'Sum3', 'Hit', 'Clear', 'Build', 'Triggered']
+OPS = ['NewAnt', 'NewList', 'NewNested', 'NewStr', 'NewSta', 'Plus', 'IPlus', 'Sum3', 'Hit', 'Clear', 'Build', 'Triggered']
 FINISH = dict(rule='behaviours of Detector.tla (strings, stations, loose antennas, (nested) antenna lists combined by +, += and '
                    'sum; hits, clear, build / trigger calls with keyword sets; antennas above the ice) executed on Detector '
                    'subclasses that record the keywords they receive; after every step every detector is iterated, measured '
@@ -20,11 +20,32 @@ def run(r):
     behs, nn, ne, nc = tlc.graph_cover(g.dot, rng=random.Random(r.seed))
     r.extra['graph_cover'] = {'nodes': nn, 'edges': ne, 'edges_replayed': nc, 'behaviours': len(behs)}
     r.replay(None, behs, 'Detector', 'graph', parallel=16, factory=DetectorDriver)
-    s = tlc.simulate('DetectorMC', 'Detector_sim.cfg', 'C19/sim', num=8000 if thorough else 1200, depth=16, seed=r.seed + 19)
+    s = tlc.simulate('DetectorMC', 'Detector_sim.cfg', 'C19/sim', num=8000 if thorough else 800, depth=16, seed=r.seed + 19)
     if s.violated:
         raise tlc.TLCError('simulation violates %s' % s.violated)
     r.transitions += s.generated
     r.replay(None, s.behaviours, 'Detector', 'simulate', parallel=16, factory=DetectorDriver)
+    # focused histories: build-keyword dispatch through combined / nested detectors, and (nested) antenna lists
+    for cfg, num in (('Detector_simbuild.cfg', 4000 if thorough else 700), ('Detector_simlists.cfg', 4000 if thorough else 700)):
+        sf = tlc.simulate('DetectorMC', cfg, 'C19/simf', num=num, depth=12, seed=r.seed + 191)
+        if sf.violated:
+            raise tlc.TLCError('simulation %s violates %s' % (cfg, sf.violated))
+        r.transitions += sf.generated
+        r.replay(None, sf.behaviours, 'Detector', 'simulate ' + cfg, parallel=16, factory=DetectorDriver)
+    # exhaustive build-dispatch focus: every detector tree of <= 4 one-antenna strings built by + and += (9 steps), each
+    # ended by one build call (Build is terminal there): all edges in thorough, a simulated sample in quick
+    if thorough:
+        gd = tlc.check('DetectorMC', 'Detector_deep.cfg', 'C19/deep', dump=True, timeout=3600)
+        r.states += gd.distinct
+        r.transitions += gd.generated
+        bd, nn, ne, nc = tlc.graph_cover(gd.dot, rng=random.Random(r.seed))
+        bd = [b for b in bd if b[-1][1]['last']['op'] == 'Build']
+        r.extra['deep_build_graph'] = {'nodes': nn, 'edges': ne, 'behaviours_ending_in_build': len(bd)}
+        r.replay(None, bd, 'Detector', 'graph (build focus)', parallel=16, factory=DetectorDriver)
+    else:
+        sd = tlc.simulate('DetectorMC', 'Detector_deep.cfg', 'C19/simdeep', num=3000, depth=9, seed=r.seed + 192)
+        r.transitions += sd.generated
+        r.replay(None, sd.behaviours, 'Detector', 'simulate (build focus)', parallel=16, factory=DetectorDriver)
     # D15 regression: as-is `+=` (append before the position test) gives the NoAntennaAboveIce counterexample
     w = r.model_check('DetectorMC', 'Detector_asis.cfg', expect_violation='NoAntennaAboveIce')
     fixed = list(w.trace[:-1])
